@@ -267,8 +267,10 @@ impl State {
             rhs_pointer.get_if_unique_target(),
         ) {
             (Some((lhs_id, lhs_offset)), Some((rhs_id, rhs_offset))) if lhs_id == rhs_id => {
-                if !(self.memory.is_unique_object(lhs_id)?) {
+                if !matches!(self.memory.is_unique_object(lhs_id), Ok(true)) {
                     // Since the pointers may or may not point to different instances referenced by the same ID we cannot compare them.
+                    // The same holds if no memory object is known for the ID (e.g. a parameter that is never dereferenced):
+                    // That does not make the comparison unsatisfiable.
                     return Ok(());
                 }
                 if *op == BinOpType::IntEqual {
